@@ -138,3 +138,25 @@ Proof.
   destruct (piece s a b) as [|c q] eqn:E; [discriminate HM|]. cbn [tl].
   exists (u ++ [c]), v. rewrite Huv, <- app_assoc. reflexivity.
 Qed.
+
+(* provenance of the canonical pool: every member is (the I->L image of) a product p that occurs as a
+   contiguous stretch of one of the proteins, holds no stop symbol, and passes the limits *)
+Lemma memZ_app x (a b : list Z) : memZ x (a ++ b) = memZ x a || memZ x b.
+Proof. induction a as [|y a IH]; cbn; [reflexivity|]. rewrite IH, orb_assoc. reflexivity. Qed.
+
+Theorem pool_members_come_from_proteins wt water lim r exc prots q :
+  In q (pool wt water lim r exc prots) ->
+  exists pr p, In pr prots /\ (q = p \/ q = i2l p) /\
+    (exists u v, fst pr = u ++ p ++ v) /\ memZ STAR_code p = false /\ keep wt water lim p = true.
+Proof.
+  intros H. apply pool_spec in H. destruct H as (pr & p & Hpr & Hp & Hq).
+  exists pr, p. split; [exact Hpr|]. split; [exact Hq|].
+  apply cleave_products_substrings in Hp. destruct Hp as [(u & v & Huv) Hk].
+  destruct (lstrip_X_spec (fst pr)) as (n & Hn & _).
+  destruct (cut_at_stop_spec (lstrip_X (fst pr))) as (t & Ht & Hstop & _).
+  unfold prep in Huv. split; [|split; [|exact Hk]].
+  - exists (repeat X_code n ++ u), (v ++ t).
+    rewrite Hn at 1. rewrite Ht at 1. rewrite Huv. rewrite <- !app_assoc. reflexivity.
+  - rewrite Huv, !memZ_app in Hstop. apply orb_false_iff in Hstop as [_ Hstop].
+    apply orb_false_iff in Hstop as [Hstop _]. exact Hstop.
+Qed.
